@@ -311,11 +311,54 @@ func constInt64Of(v ssa.Value) (int64, bool) {
 
 // isLenOf: v is len(S) (through conversions) for the slice value S.
 func isLenOf(v ssa.Value, S ssa.Value) bool {
-	cl, ok := stripConv(v).(*ssa.Call)
-	if !ok || builtinName(&cl.Call) != "len" {
-		return false
+	if cl, ok := stripConv(v).(*ssa.Call); ok && builtinName(&cl.Call) == "len" {
+		return sameSlice(cl.Call.Args[0], S)
 	}
-	return sameSlice(cl.Call.Args[0], S)
+	// a value that equals len(S) by construction: S = T[lo : lo+n]  ⇒  len(S) == n
+	if n := lenAlias(S); n != nil && sameValuePure(stripConv(v), n) {
+		return true
+	}
+	return false
+}
+
+// lenAlias: for S = T[lo : lo+n] (the sum may be written in any order) the value n, which equals len(S).
+func lenAlias(S ssa.Value) ssa.Value {
+	sl, ok := S.(*ssa.Slice)
+	if !ok || sl.High == nil {
+		return nil
+	}
+	ht, hk := linSplit(sl.High)
+	var lt []ssa.Value
+	var lk int64
+	if sl.Low != nil {
+		lt, lk = linSplit(sl.Low)
+	}
+	if hk != lk {
+		return nil
+	}
+	used := make([]bool, len(ht))
+	for _, l := range lt {
+		found := false
+		for i, h := range ht {
+			if !used[i] && sameValuePure(h, l) {
+				used[i], found = true, true
+				break
+			}
+		}
+		if !found {
+			return nil
+		}
+	}
+	var rest []ssa.Value
+	for i, h := range ht {
+		if !used[i] {
+			rest = append(rest, h)
+		}
+	}
+	if len(rest) != 1 {
+		return nil
+	}
+	return rest[0]
 }
 
 func sameSlice(a, b ssa.Value) bool {
@@ -706,7 +749,99 @@ func lenAtLeast(S ssa.Value, base ssa.Value, k int64, at *ssa.BasicBlock) (bool,
 	if base == nil && k <= 0 {
 		return true, "trivial"
 	}
+	// one step of transitivity: len >= F and a dominating comparison establishes need <= F
+	for _, f := range facts {
+		if f.Base == nil {
+			continue
+		}
+		if leAt(base, k, f.Base, f.K, at) {
+			return true, fmt.Sprintf("len >= %s%+d and a dominating comparison bounds the need by it", valName(f.Base), f.K)
+		}
+	}
 	return false, fmt.Sprintf("no bound len >= %s%+d among %d facts", valName(base), k, len(facts))
+}
+
+// leAt: a dominating edge of `at` establishes  (av + ak) <= (bv + bk)  for linear sums av, bv.
+func leAt(av ssa.Value, ak int64, bv ssa.Value, bk int64, at *ssa.BasicBlock) bool {
+	at0, ac := linSplit(av)
+	bt0, bc := linSplit(bv)
+	ak += ac
+	bk += bc
+	sameTerms := func(x, y []ssa.Value) bool {
+		if len(x) != len(y) {
+			return false
+		}
+		used := make([]bool, len(y))
+		for _, a := range x {
+			found := false
+			for i, b := range y {
+				if !used[i] && sameValuePure(a, b) {
+					used[i], found = true, true
+					break
+				}
+			}
+			if !found {
+				return false
+			}
+		}
+		return true
+	}
+	for d := at; d != nil && d.Idom() != nil; d = d.Idom() {
+		id := d.Idom()
+		ifi, ok := id.Instrs[len(id.Instrs)-1].(*ssa.If)
+		if !ok {
+			continue
+		}
+		for s := 0; s < 2; s++ {
+			if id.Succs[s] != d || len(d.Preds) != 1 {
+				continue
+			}
+			cond := ifi.Cond
+			pol := s == 0
+			for {
+				u, ok := cond.(*ssa.UnOp)
+				if !ok || u.Op != token.NOT {
+					break
+				}
+				cond = u.X
+				pol = !pol
+			}
+			b, ok := cond.(*ssa.BinOp)
+			if !ok || !isCmp(b.Op) {
+				continue
+			}
+			op := b.Op
+			if !pol {
+				op = negOp(op)
+			}
+			x, y := b.X, b.Y
+			// normalise to  x <= y + slack
+			var slack int64
+			switch op {
+			case token.LEQ:
+			case token.LSS:
+				slack = -1
+			case token.GEQ:
+				x, y = y, x
+			case token.GTR:
+				x, y = y, x
+				slack = -1
+			case token.EQL:
+			default:
+				continue
+			}
+			xt, xk := linSplit(x)
+			yt, yk := linSplit(y)
+			// established: xt + xk <= yt + yk + slack. Wanted: at0 + ak <= bt0 + bk.
+			if sameTerms(xt, at0) && sameTerms(yt, bt0) {
+				// at0 <= bt0 + (yk + slack - xk)  ⇒  at0 + ak <= bt0 + (yk + slack - xk + ak)
+				if yk+slack-xk+ak <= bk {
+					return true
+				}
+			}
+		}
+	}
+	return false
 }
 
 func valName(v ssa.Value) string {
@@ -875,6 +1010,34 @@ func (p *Prog) bndSites(fns []*ssa.Function, unproven map[string]string, excepti
 							}
 							if dominatedByEdge(x.Block(), Rel{Op: token.LEQ, X: Same(x.Low), Y: Same(x.High)}, false) {
 								le = true
+							}
+							// high = low + (non-negative addends) as linear sums (no CSE in go/ssa: `p+4` twice are two values)
+							if !le {
+								ht, hc := linSplit(x.High)
+								lt, lc := linSplit(x.Low)
+								used := make([]bool, len(ht))
+								all := true
+								for _, l := range lt {
+									found := false
+									for i, h := range ht {
+										if !used[i] && sameValuePure(h, l) {
+											used[i], found = true, true
+											break
+										}
+									}
+									if !found {
+										all = false
+									}
+								}
+								if all && hc >= lc {
+									rest := true
+									for i, h := range ht {
+										if !used[i] && !nonNeg(h, x.Block(), map[ssa.Value]bool{}) {
+											rest = false
+										}
+									}
+									le = rest
+								}
 							}
 						}
 						okAll = okAll && le && nonNeg(x.Low, x.Block(), map[ssa.Value]bool{})
